@@ -28,6 +28,7 @@ import (
 //	                  cb, mb are not sent in a SetProtocolVersionResponse)
 //	E:<st>            ERROR_MESSAGE with LLRPStatus st
 //	W:<typ>           header-only frame of type typ, same message id
+//	W:<typ>:<st>      frame of type typ carrying an LLRPStatus st (after two version bytes for type 56)
 //	O                 proper response type, payload MaxBufferedPayloadSz+1 bytes
 //	G1|G2|G3          proper response type, payload the decoders reject (truncated / wrong TLV
 //	                  type / TLV longer than the message)
@@ -224,7 +225,14 @@ func (p *c06Peer) react(f c06Frame, r string, respType int, versions bool) {
 	case "E":
 		p.put(p.vn, 100, f.id, c06Status(num(1)))
 	case "W":
-		p.put(p.vn, num(1), f.id, nil)
+		var pl []byte
+		if len(parts) > 2 { // another type that does carry an LLRPStatus
+			pl = c06Status(num(2))
+			if num(1) == 56 {
+				pl = append([]byte{0x40, 0x40}, pl...)
+			}
+		}
+		p.put(p.vn, num(1), f.id, pl)
 	case "O":
 		p.put(p.vn, respType, f.id, make([]byte, int(MaxBufferedPayloadSz)+1))
 	case "G1": // truncated: shorter than the fixed part
